@@ -1356,11 +1356,11 @@ func main() {
 	}
 	var jobs []job
 	if *tier == "quick" {
-		jobs = []job{{"values", 2, 8, 14, true, 0}, {"values", 8, 6, 12, false, 0}, {"values", 32, 2, 10, false, 0},
-			{"position", 2, 4, 0, false, 0}, {"position", 8, 4, 0, false, 0}, {"position", 32, 2, 0, false, 0},
-			{"proginit", 2, 4, 0, false, 0}, {"proginit", 8, 4, 0, false, 0}, {"proginit", 32, 2, 0, false, 0},
-			{"encode", 8, 3, 0, false, 0},
-			{"footprints", 1, 15, 0, false, 0}}
+		jobs = []job{{"values", 2, 6, 14, true, 0}, {"values", 8, 4, 12, false, 0}, {"values", 32, 2, 10, false, 0},
+			{"position", 2, 3, 0, false, 0}, {"position", 8, 3, 0, false, 0}, {"position", 32, 2, 0, false, 0},
+			{"proginit", 2, 2, 0, false, 0}, {"proginit", 8, 2, 0, false, 0}, {"proginit", 32, 2, 0, false, 0},
+			{"encode", 8, 2, 0, false, 0},
+			{"footprints", 1, 10, 0, false, 0}}
 	} else {
 		jobs = []job{{"values", 2, 1200, 16, true, 0}, {"values", 3, 480, 14, true, 0}, {"values", 8, 960, 14, false, 0}, {"values", 32, 360, 12, false, 0},
 			{"values", 8, 480, 14, false, 2}, {"values", 4, 480, 14, false, 4},
